@@ -313,6 +313,30 @@ Definition pre_build (ct : cls_table) (oid : Z) (k : kind) (args : list Z) (kw :
     end
   end.
 
+(* the loop  for sub in self.subsets: if hasattr(sub, 'build_antennas'): sub.build_antennas(...)
+   of Detector.build_antennas, over the function [f] that builds one subset; stops at the first
+   failure leaving the subsets built so far in place *)
+Section BuildSubs.
+  Variable f : det -> list Z -> kwargs -> det * option err * list logent.
+  Variable matching : bool.
+  Variable args1 : list Z.
+  Variable kw1 : kwargs.
+  Fixpoint build_subs (l : list det) : list det * option err * list logent :=
+    match l with
+    | [] => ([], None, [])
+    | s :: r =>
+      match s with
+      | Node _ _ m _ _ =>
+        let '(s', e, lg) := if matching then f s args1 kw1 else f s [] (route_build m kw1) in
+        match e with
+        | Some _ => (s' :: r, e, lg)
+        | None => let '(r', e2, lg2) := build_subs r in (s' :: r', e2, lg ++ lg2)
+        end
+      | _ => let '(r', e2, lg2) := build_subs r in (s :: r', e2, lg2)
+      end
+    end.
+End BuildSubs.
+
 (* returns the object as mutated so far (a failure deep inside leaves the subsets built
    before it in place), the error if any, and the call log *)
 Fixpoint build (ct : cls_table) (t : det) (args : list Z) (kw : kwargs) {struct t}
@@ -340,22 +364,7 @@ Fixpoint build (ct : cls_table) (t : det) (args : list Z) (kw : kwargs) {struct 
         let matching := builds_match subs in
         if negb matching && negb (Nat.eqb (length args1) 0) then (t, Some EType, log0)
         else
-          let fix go (l : list det) : list det * option err * list logent :=
-            match l with
-            | [] => ([], None, [])
-            | s :: r =>
-              match s with
-              | Node _ _ m _ _ =>
-                let '(s', e, lg) := if matching then build ct s args1 kw1
-                                    else build ct s [] (route_build m kw1) in
-                match e with
-                | Some _ => (s' :: r, e, lg)
-                | None => let '(r', e2, lg2) := go r in (s' :: r', e2, lg ++ lg2)
-                end
-              | _ => let '(r', e2, lg2) := go r in (s :: r', e2, lg2)
-              end
-            end in
-          let '(subs', e, lg) := go subs in
+          let '(subs', e, lg) := build_subs (build ct) matching args1 kw1 subs in
           (Node oid k msig pos subs', e, log0 ++ lg)
     end
   | _ => (t, Some EType, [])
